@@ -570,6 +570,14 @@ class VariantBase(productmd.common.MetadataBase):
                 var = self.variants[i]
                 if var.uid == name:
                     return var
+            # ... or for a descendant of a variant whose own UID contains a dash
+            for i in self.variants:
+                var = self.variants[i]
+                if "-" in var.uid and name.startswith(var.uid + "-"):
+                    try:
+                        return var[name[len(var.uid) + 1:]]
+                    except KeyError:
+                        pass
             return self.variants[head][tail]
         return self.variants[name]
 
